@@ -7,7 +7,9 @@ feature lookup (C10.c); limits clip: load_limited_to builds a clipping coverage,
 coverage reaches the merger, the single-layer fast path is off whenever a coverage applies
 and the global mask lies on every path to the result (C10.d); tile rendering masks or
 returns empty for tiles not contained in the limit (C10.e); feature info is gated by the
-limit (C10.f)."""
+limit (C10.f).
+Added in round 4: a re-projected limit geometry keeps its holes (C10.k, shared C17.i); the clipped
+tile is alpha-composited onto a transparent canvas, never pasted with itself as mask (C10.l)."""
 import ast
 
 from ..engine import rule
